@@ -153,6 +153,11 @@ impl PairCfg {
             }
             _ => {}
         }
+        // Connectivity-check transactions hold their socket until they time out; keep those timers
+        // short so that "released within bounded time" can be decided with a short deadline
+        // (deadline >= 20 x these timers, see life.rs).
+        c.stun_timeout = Duration::from_millis(400);
+        c.nomination_timeout = Duration::from_millis(400);
         if self.fast_timers {
             c.ice_disconnect_threshold = Duration::from_millis(600);
             c.ice_connection_timeout = Duration::from_millis(1500);
@@ -268,7 +273,13 @@ pub struct MediaLeg {
 
 pub struct Side {
     pub label: String,
-    pub pc: Option<PeerConnection>,
+    /// the application's handle; `take()` = the application drops the connection
+    pub pc: parking_lot::Mutex<Option<PeerConnection>>,
+    /// receivers subscribed at creation: readable after the connection is dropped, and they do
+    /// not keep it alive
+    pub peer_rx: tokio::sync::watch::Receiver<PeerConnectionState>,
+    pub sig_rx: tokio::sync::watch::Receiver<rustrtc::SignalingState>,
+    pub reason_rx: tokio::sync::watch::Receiver<Option<DisconnectReason>>,
     pub dc: parking_lot::Mutex<Option<Arc<DataChannel>>>,
     pub legs: Vec<MediaLeg>,
     /// per data channel: was Open observed, number of Close events, messages received
@@ -319,7 +330,10 @@ impl Side {
         let watchers = Watchers::spawn(&pc, label);
         Side {
             label: label.to_string(),
-            pc: Some(pc),
+            peer_rx: pc.subscribe_peer_state(),
+            sig_rx: pc.subscribe_signaling_state(),
+            reason_rx: pc.subscribe_disconnect_reason(),
+            pc: parking_lot::Mutex::new(Some(pc)),
             dc: parking_lot::Mutex::new(None),
             legs,
             dc_open: Arc::new(AtomicBool::new(false)),
@@ -331,8 +345,32 @@ impl Side {
         }
     }
 
-    pub fn pc(&self) -> &PeerConnection {
-        self.pc.as_ref().expect("pc dropped")
+    /// A temporary clone of the application's handle (drop it promptly). None once dropped.
+    pub fn try_pc(&self) -> Option<PeerConnection> {
+        self.pc.lock().clone()
+    }
+    pub fn pc(&self) -> PeerConnection {
+        self.try_pc().expect("pc dropped")
+    }
+    pub fn close(&self) -> bool {
+        // no clone: close through the stored handle so that no extra reference exists
+        if let Some(pc) = self.pc.lock().as_ref() {
+            pc.close();
+            true
+        } else {
+            false
+        }
+    }
+    /// The application drops its handle.
+    pub fn drop_pc(&self) -> bool {
+        let pc = self.pc.lock().take();
+        pc.is_some()
+    }
+    pub fn reason(&self) -> &'static str {
+        reason_name(&self.reason_rx.borrow().clone())
+    }
+    pub fn sig_state(&self) -> String {
+        format!("{:?}", *self.sig_rx.borrow())
     }
 
     /// Reader task of one data channel: logs Open / Message / Close as `app` events and counts them.
@@ -371,7 +409,7 @@ impl Side {
     /// the PeerConnection handle only while polling `recv()`; aborted by `release()`.
     pub fn start_event_pump(self: &Arc<Self>) {
         let me = self.clone();
-        let pc = self.pc().clone();
+        let pc = self.pc();
         let h = tokio::spawn(async move {
             while let Some(ev) = pc.recv().await {
                 match ev {
@@ -430,7 +468,7 @@ impl Side {
     }
 
     pub fn peer_state(&self) -> Option<PeerConnectionState> {
-        self.pc.as_ref().map(|p| *p.subscribe_peer_state().borrow())
+        Some(*self.peer_rx.borrow())
     }
 
     /// Stop the harness's own helper tasks for this side (not the connection's).
@@ -461,11 +499,21 @@ pub fn free_udp_port() -> u16 {
 
 impl Pair {
     pub fn new(cfg: &PairCfg) -> Self {
+        Self::new_with(cfg, true, true)
+    }
+
+    /// `pump_x = false`: no event pump on that side (the pump holds a clone of the handle, which
+    /// would defeat a scenario in which the application drops the connection).
+    pub fn new_with(cfg: &PairCfg, pump_a: bool, pump_b: bool) -> Self {
         let mux_port = if cfg.ice == "udpmux" { free_udp_port() } else { 0 };
         let a = Arc::new(Side::new("A", cfg, mux_port));
         let b = Arc::new(Side::new("B", cfg, mux_port));
-        a.start_event_pump();
-        b.start_event_pump();
+        if pump_a {
+            a.start_event_pump();
+        }
+        if pump_b {
+            b.start_event_pump();
+        }
         Pair {
             cfg: cfg.clone(),
             a,
@@ -489,8 +537,8 @@ impl Pair {
             return Ok(());
         }
         let o = self.offerer();
-        let dc = o
-            .pc()
+        let pc = o.try_pc().ok_or("dropped")?;
+        let dc = pc
             .create_data_channel("verif", None)
             .map_err(|e| format!("create_data_channel: {e}"))?;
         log("app", &o.label, "dc_created", json!({"sid": dc.id}));
@@ -498,46 +546,96 @@ impl Pair {
         Ok(())
     }
 
-    pub async fn make_offer(&self) -> Result<SessionDescription, String> {
-        let o = self.offerer();
-        let _ = o.pc().create_offer().await.map_err(|e| format!("create_offer: {e}"))?;
-        o.pc().wait_for_gathering_complete().await;
-        let offer = o.pc().create_offer().await.map_err(|e| format!("create_offer: {e}"))?;
-        Ok(offer)
+    /// Signalling in separately callable steps (the lifecycle scenarios stop between them).
+    pub async fn step_gather_offer(&self) -> Result<(), String> {
+        let pc = self.offerer().try_pc().ok_or("dropped")?;
+        let _ = pc.create_offer().await.map_err(|e| format!("create_offer: {e}"))?;
+        Ok(())
     }
 
-    pub async fn make_answer(&self) -> Result<SessionDescription, String> {
-        let a = self.answerer();
-        let _ = a.pc().create_answer().await.map_err(|e| format!("create_answer: {e}"))?;
-        a.pc().wait_for_gathering_complete().await;
-        let ans = a.pc().create_answer().await.map_err(|e| format!("create_answer: {e}"))?;
-        Ok(ans)
+    pub async fn step_offer(&self) -> Result<SessionDescription, String> {
+        let pc = self.offerer().try_pc().ok_or("dropped")?;
+        let _ = pc.create_offer().await.map_err(|e| format!("create_offer: {e}"))?;
+        pc.wait_for_gathering_complete().await;
+        let d = pc.create_offer().await.map_err(|e| format!("create_offer: {e}"))?;
+        log_ports(&self.offerer().label, &d);
+        Ok(d)
+    }
+
+    pub fn step_set_local_offer(&self, offer: &SessionDescription) -> Result<(), String> {
+        let pc = self.offerer().try_pc().ok_or("dropped")?;
+        pc.set_local_description(offer.clone())
+            .map_err(|e| format!("set_local(offer): {e}"))
+    }
+
+    pub async fn step_set_remote_offer(&self, offer: &SessionDescription) -> Result<(), String> {
+        let pc = self.answerer().try_pc().ok_or("dropped")?;
+        pc.set_remote_description(offer.clone())
+            .await
+            .map_err(|e| format!("set_remote(offer): {e}"))
+    }
+
+    pub async fn step_answer(&self) -> Result<SessionDescription, String> {
+        let pc = self.answerer().try_pc().ok_or("dropped")?;
+        let _ = pc.create_answer().await.map_err(|e| format!("create_answer: {e}"))?;
+        pc.wait_for_gathering_complete().await;
+        let d = pc.create_answer().await.map_err(|e| format!("create_answer: {e}"))?;
+        log_ports(&self.answerer().label, &d);
+        Ok(d)
+    }
+
+    pub fn step_set_local_answer(&self, answer: &SessionDescription) -> Result<(), String> {
+        let pc = self.answerer().try_pc().ok_or("dropped")?;
+        pc.set_local_description(answer.clone())
+            .map_err(|e| format!("set_local(answer): {e}"))
+    }
+
+    pub async fn step_set_remote_answer(&self, answer: &SessionDescription) -> Result<(), String> {
+        let pc = self.offerer().try_pc().ok_or("dropped")?;
+        pc.set_remote_description(answer.clone())
+            .await
+            .map_err(|e| format!("set_remote(answer): {e}"))
     }
 
     /// Full offer/answer exchange.
     pub async fn signal(&self) -> Result<(), String> {
-        let offer = self.make_offer().await?;
-        self.offerer()
-            .pc()
-            .set_local_description(offer.clone())
-            .map_err(|e| format!("set_local(offer): {e}"))?;
-        self.answerer()
-            .pc()
-            .set_remote_description(offer)
-            .await
-            .map_err(|e| format!("set_remote(offer): {e}"))?;
-        let answer = self.make_answer().await?;
-        self.answerer()
-            .pc()
-            .set_local_description(answer.clone())
-            .map_err(|e| format!("set_local(answer): {e}"))?;
-        self.offerer()
-            .pc()
-            .set_remote_description(answer)
-            .await
-            .map_err(|e| format!("set_remote(answer): {e}"))?;
+        let offer = self.step_offer().await?;
+        self.step_set_local_offer(&offer)?;
+        self.step_set_remote_offer(&offer).await?;
+        let answer = self.step_answer().await?;
+        self.step_set_local_answer(&answer)?;
+        self.step_set_remote_answer(&answer).await?;
         Ok(())
     }
+
+    pub fn both_connected(&self) -> bool {
+        self.a.peer_state() == Some(PeerConnectionState::Connected)
+            && self.b.peer_state() == Some(PeerConnectionState::Connected)
+    }
+
+    pub fn both_dc_open(&self) -> bool {
+        self.a.dc_open.load(Ordering::SeqCst) && self.b.dc_open.load(Ordering::SeqCst)
+    }
+}
+
+/// Log the local transport addresses a description advertises (to attribute leaked sockets).
+pub fn log_ports(inst: &str, d: &SessionDescription) {
+    let sdp = d.to_sdp_string();
+    let mut ports: Vec<String> = vec![];
+    for line in sdp.lines() {
+        if let Some(c) = line.strip_prefix("a=candidate:") {
+            let f: Vec<&str> = c.split_whitespace().collect();
+            if f.len() > 5 {
+                ports.push(format!("{}:{}", f[2].to_lowercase(), f[5]));
+            }
+        } else if let Some(m) = line.strip_prefix("m=") {
+            let f: Vec<&str> = m.split_whitespace().collect();
+            if f.len() > 1 {
+                ports.push(format!("m:{}", f[1]));
+            }
+        }
+    }
+    log("app", inst, "ports", json!({"ports": ports}));
 }
 
 // --------------------------------------------------------------------------- waiting helpers
@@ -594,4 +692,38 @@ pub fn socket_count() -> usize {
         }
     }
     n
+}
+
+/// Local addresses of the socket descriptors of this process (diagnostics for leak reports).
+pub fn socket_details() -> Vec<String> {
+    let mut inodes = vec![];
+    if let Ok(rd) = std::fs::read_dir("/proc/self/fd") {
+        for e in rd.flatten() {
+            if let Ok(t) = std::fs::read_link(e.path()) {
+                let t = t.to_string_lossy().to_string();
+                if let Some(i) = t.strip_prefix("socket:[").and_then(|x| x.strip_suffix(']')) {
+                    inodes.push(i.to_string());
+                }
+            }
+        }
+    }
+    let mut out = vec![];
+    for (proto, path) in [("udp", "/proc/self/net/udp"), ("tcp", "/proc/self/net/tcp"), ("unix", "/proc/self/net/unix")] {
+        if let Ok(s) = std::fs::read_to_string(path) {
+            for line in s.lines().skip(1) {
+                let f: Vec<&str> = line.split_whitespace().collect();
+                if proto == "unix" {
+                    if f.len() >= 7 && inodes.iter().any(|i| *i == f[6]) {
+                        out.push(format!("unix:{}", f.get(7).unwrap_or(&"")));
+                    }
+                    continue;
+                }
+                if f.len() > 9 && inodes.iter().any(|i| *i == f[9]) {
+                    let port = f[1].split(':').nth(1).and_then(|p| u16::from_str_radix(p, 16).ok()).unwrap_or(0);
+                    out.push(format!("{proto}:{port}"));
+                }
+            }
+        }
+    }
+    out
 }
